@@ -19,6 +19,57 @@ Facets
   wavevector_calls   sequences of choosewavevector(ndim, numofq, onlypositive) calls whose arguments differ in one
                      argument or not at all; the caller overwrites every returned array; sq(..., qrange=...) objects
                      are built in between.  Every call equals the enumerated documented set regardless of history
+  size_boundaries    (round 3) ONE size axis on a block boundary B-1, B, B+1, 2B-1, 2B+1, B+B//3 for B in 32, 50, 64, 100,
+                     128, 200, 256: particles N = 31..513 (few vectors), supplied wave vectors M = 31..513 (few particles),
+                     frames T = 31..201 (B <= 100); or a qrange whose default set holds hundreds of vectors; K 1..6;
+                     arrays from a Hypothesis-drawn numpy seed; the vectorised reference stays exact.  Caught: C04-F
+                     (blocks of 100 particles with reused work arrays).  size_boundaries_deep (thorough only): N, M up to
+                     2049, T up to 1001, numofq up to 160 (2D) / 36 (3D)
+  representations    (round 3) value-equal arguments in other numpy representations: int64 cell / coordinates, float32 or
+                     Fortran-ordered coordinates, labels as float64 / int32 / int8
+Input classes present in the explicit-list facets (round 3):
+  * qrep-*: the integer list as int64 / int32 / int16 / int8 / float64 (what np.loadtxt returns) / float32 / Fortran
+    order / strided view / read-only array; the oracle is evaluated for the VALUES.  Caught: C04-E (floating dtypes
+    reinterpreted as physical wave vectors).  Nested Python lists raise on the unchanged tree: out of domain.
+  * batch-*: properties of the WHOLE list a short-cut could test: every component in {-1,0,1}; all vectors on one
+    axis; all rows equal; no negative component; components up to 100; a single vector (nvec=1).
+  * all-particles-outside (the whole configuration in another periodic image), timesteps-repeated / -going-back
+    (S(q) averages the frames supplied, whatever their TIMESTEP labels).
+repeat_calls / wavevector_calls additionally keep EVERY returned DataFrame / table alive and require, at the end of the
+case, that each still equals bit for bit the copy taken when it was returned (results handed out earlier must stay what
+they were), and call the public per-composition methods unary() .. quinary() directly.
+
+CLAUSES (statement + quantifier of C04, split; deciding assertion; populated class tags of evidence/C04.json)
+  1 one to five species (quantifier: counts 1..6)    every column of sqref.column_names(K) compared in
+                                                     compare_with_reference; K = 6 must return q, Sq only      K1..K6
+  2 orthogonal 2D / 3D cell, unequal edges           same                          d2 d3 edges-unequal/-pair-equal/-cubic
+  3 any wave-number range                            default_range, minimal (smallest-range), size axis `range`:
+                                                     columns vs reference on sqref.default_vectors(d, int(2 qrange /
+                                                     min(2pi/L)), onlypositive)     numofq<=6/<=12/>12, default-set-M<=512
+       WAS WEAK: numofq <= 24 (2D) / 12 (3D) inside sq -> now up to 64 / 20 (thorough 160 / 36)
+  4 explicit integer wave-vector list                explicit_vectors, minimal, lattice, representations, size axis M
+       WAS WEAK: only int64 / int32 arrays, components in [-6, 6], <= 20 vectors -> qrep-* (12 representations),
+       batch-large-components (|n| <= 100), M = 31..513, batch-* classes
+  5 S_ab = frame average of Re[rho_a rho_b*]/sqrt(N_a N_b), q = 2 pi n / L
+                                                     close(column, atol 1.01e-6) for ALL columns; per-vector CSV
+                                                     unaveraged; closed-form Bragg values (analytic_lattice)
+       WAS WEAK: N <= 30, 1..3 frames -> size-boundary-N=31..513, size-boundary-T=31..201; labels-per-frame kept
+  6 averaged over supplied vectors of equal |q| after rounding to 1e-6
+                                                     sqref.grouped emulation      shared-q group-mixes-directions
+                                                     group-with-different-float-norms duplicate-vectors batch-all-equal
+  7 default set = all non-zero integer vectors of the documented range with integer norm
+                                                     default_vectors (exhaustive + large), wavevector_calls
+  8 sum rule N S = sum N_a S_aa + 2 sum sqrt(N_a N_b) S_ab     on the returned numbers, K 2..5
+  9 diagonal terms non-negative                      Sq, Sq_aa >= -1e-9 on the returned numbers
+ 10 onlypositive options                             False / True / 'x' / 'y' / 'z' tags in default_range, default_vectors
+ 11 frame counts                                     frames1..3, size axis T, timesteps-* classes
+ 12 observed at getresults() and the optional CSV files       csv, qvectors-csv
+ 13 (histories) several evaluations / objects in one process   repeat_calls, wavevector_calls; results-held=3..6,
+                                                     held-results-of-equal-shape, held-tables>=2, direct-method-call
+Not asserted on purpose: numofq when 2 qrange / min(2 pi / L) lies within 1e-6 of an integer (the quotient is not the same
+double under every order of the divisions: not crisp); what an sq object built BEFORE an in-place change of its inputs
+returns; labels other than 1..K (the selectors `== 1 ... else` hard-code them).
+
 Input class present in every facet that draws a trajectory (system_st): "labels-per-frame" — about 40 % of the
 multi-frame cases with 2..5 species carry a different arrangement of the same multiset of labels in every frame (swap
 Monte Carlo, `fix atom/swap`): sq reads snapshot.particle_type of EACH frame, only the counts come from frame 0.  The
@@ -61,8 +112,12 @@ from PyMatterSim.utils.wavevector import choosewavevector
 
 RULE = ("orthogonal 2D/3D boxes (unequal / partly equal / cubic / commensurate edges, any origin) x K 1..6 species "
         "(all present, arbitrary composition) x N <= 30 x 1..3 frames (species labels fixed, or permuted between "
-        "frames with the composition fixed) x positions inside or outside the box x "
-        "{explicit integer wave-vector lists | qrange with onlypositive in False,True,'x','y','z'}; plus minimal sizes "
+        "frames with the composition fixed; timesteps even, repeated or going back) x positions inside the box, partly "
+        "outside or all in another periodic image x "
+        "{explicit integer wave-vector lists in 12 numpy representations (integer and floating dtypes, layouts) and "
+        "batch classes | qrange with onlypositive in False,True,'x','y','z'}; size boundaries (N, M = 31..513, "
+        "T = 31..201 around block sizes 32..256; thorough up to 2049 / 1001); value-equal snapshot arrays in other "
+        "dtypes; plus minimal sizes "
         "(N = K, N = 1, N = 2, one vector, one |q| group, smallest non-empty default range), several calls in one "
         "process (same objects overwritten in place, alternating inputs, getresults() twice) and sequences of "
         "choosewavevector calls; non-trivial (main facets) = 2 <= K <= 5 with unequal species counts and not all "
@@ -79,6 +134,16 @@ ASSUMPTIONS = [
     "N = 1 (K = 1) is inside the statement: rho(q) is one phase factor and S(q) = 1",
     "an sq object is evaluated only if it was constructed after the last in-place change of its input arrays; the "
     "caller may overwrite a (writeable) array returned by choosewavevector without affecting later calls",
+    "an explicit list is a numpy array holding the integer VALUES: any integer or floating dtype and any memory layout "
+    "(the unchanged sq does qvector.astype(float64)); nested Python lists / tuples raise AttributeError on the unchanged "
+    "tree and are not generated",
+    "snapshot arrays may be int64 (hand-built cell and integer coordinates), float32 / Fortran-ordered coordinates, "
+    "labels of any numeric dtype; a float32 boxlength is NOT generated (2 pi / L would be evaluated in single precision)",
+    "a DataFrame / wave-vector table returned earlier is not changed by later calls (compared bit for bit with a copy "
+    "taken at return; tables the caller overwrote, or that share memory with one, are exempt)",
+    "the public methods unary() .. quinary() may be called directly on a system of the matching composition "
+    "(getresults() only dispatches on the number of species)",
+    "size classes draw their arrays from numpy's generator seeded by a Hypothesis-drawn integer",
 ]
 
 ATOL = 1.01e-6
@@ -145,6 +210,34 @@ def frame_labels_st(draw, types, T):
 
 
 @st.composite
+def timesteps_st(draw, T):
+    """TIMESTEP values of the T frames.  S(q) is the average over the frames SUPPLIED, in whatever order and with
+    whatever timestep labels (EXTENSION_2 class 7): evenly spaced (usual), a frame repeated under the same timestep,
+    timesteps going back (restart files concatenated), all equal."""
+    t0 = draw(st.integers(0, 10 ** 6))
+    dt = draw(st.integers(1, 5000))
+    ts = [t0 + k * dt for k in range(T)]
+    how = draw(st.sampled_from(["even", "even", "even", "repeat", "back", "all-equal"])) if T >= 2 else "even"
+    if how == "repeat":
+        k = draw(st.integers(1, T - 1))
+        ts[k] = ts[k - 1]
+    elif how == "back":
+        ts = ts[::-1] if draw(st.booleans()) else ts[1:] + ts[:1]
+    elif how == "all-equal":
+        ts = [t0] * T
+    return ts
+
+
+def _timestep_tag(ts):
+    if len(ts) < 2:
+        return None
+    dif = np.diff(np.asarray(ts, dtype=np.int64))
+    if np.all(dif > 0):
+        return "timesteps-increasing"
+    return "timesteps-repeated" if np.all(dif >= 0) else "timesteps-going-back"
+
+
+@st.composite
 def system_st(draw, frames=(1, 3), nmax=30, kmax=6, nmin=2, labels=True):
     d = draw(st.sampled_from([2, 3]))
     cell = draw(box_st(d))
@@ -154,19 +247,23 @@ def system_st(draw, frames=(1, 3), nmax=30, kmax=6, nmin=2, labels=True):
     T = draw(st.integers(*frames))
     fr = [f0] + [draw(gen.frac_st(N, d)) for _ in range(T - 1)]
     offs = np.zeros((N, d))
-    if draw(st.booleans()):
+    where = draw(st.sampled_from(["inside", "inside", "inside", "some-outside", "some-outside", "all-outside"]))
+    if where == "some-outside":
         offs = draw(hnp.arrays(np.int64, (N, d), elements=st.integers(-2, 2))).astype(float)
+    elif where == "all-outside":
+        # the WHOLE configuration sits in another periodic image (every particle outside the box: a batch-wide
+        # property, EXTENSION_3 class 4), optionally with further per-particle images on top
+        shift = np.array(draw(st.lists(st.sampled_from([-3, -2, -1, 1, 2]), min_size=d, max_size=d)), dtype=float)
+        offs = np.tile(shift, (N, 1))
     pos = [cell["lo"] + (f + offs) @ cell["H"] for f in fr]
     types = draw(gen.types_st(N, K))
     # class "labels-per-frame" (EXTENSION_1 item 6): ~40 % of the multi-frame cases with partial columns
     types_frames = None
     if labels and T >= 2 and 2 <= K <= 5 and draw(st.sampled_from([True, True, False, False, False])):
         types_frames = draw(frame_labels_st(types, T))
-    t0 = draw(st.integers(0, 10 ** 6))
-    dt = draw(st.integers(1, 5000))
     outfile = draw(st.booleans())
     return {"d": d, "cell": cell, "pos": pos, "types": types, "types_frames": types_frames, "K": K, "kind": kind,
-            "timesteps": [t0 + k * dt for k in range(T)], "outside": bool(np.any(offs)),
+            "timesteps": draw(timesteps_st(T)), "outside": bool(np.any(offs)), "all_outside": where == "all-outside",
             "outfile": outfile, "saveq": bool(outfile and draw(st.booleans()))}
 
 
@@ -181,11 +278,122 @@ def labels_of(case):
 def snapshots_of(case):
     """Like gen.snapshots_from, but every frame gets its own label array (gen.snapshots_from only knows one array
     for all frames).  Every SingleSnapshot owns fresh copies of positions and labels."""
+    import dataclasses
+
     from PyMatterSim.reader.reader_utils import Snapshots
 
     snaps = [gen.snapshot_from(case["cell"], p, t, ts)
              for p, t, ts in zip(case["pos"], labels_of(case), case["timesteps"])]
+    rep = case.get("argrep")
+    if rep:
+        snaps = [dataclasses.replace(s, **_snapshot_fields(s, rep)) for s in snaps]
     return Snapshots(nsnapshots=len(snaps), snapshots=snaps)
+
+
+# Representations of the snapshot arrays (EXTENSION_2 class 3).  Probed on the unchanged tree: all of them give the
+# results of the float64 / int64 arrays bit for bit.  NOT accepted / not value-equal, hence out of domain: positions as
+# nested lists (AttributeError), a float32 boxlength (2 pi / L is then evaluated in single precision), string labels.
+ARGREPS = ["int-positions", "int-box", "int-positions+box", "types-float64", "types-int32", "types-int8",
+           "positions-float32", "positions-fortran"]
+
+
+def _snapshot_fields(s, rep):
+    """Fields of a SingleSnapshot in another representation of the SAME values (harness error if not exact)."""
+    out = {}
+    if "int-" in rep and "positions" in rep:
+        out["positions"] = s.positions.astype(np.int64)
+    if "int-" in rep and "box" in rep:
+        out["boxlength"] = s.boxlength.astype(np.int64)
+        out["hmatrix"] = s.hmatrix.astype(np.int64)
+        out["boxbounds"] = s.boxbounds.astype(np.int64)
+    if rep == "positions-float32":
+        out["positions"] = s.positions.astype(np.float32)
+    if rep == "positions-fortran":
+        out["positions"] = np.asfortranarray(s.positions)
+    if rep.startswith("types-"):
+        kind = rep.split("-")[1]
+        out["particle_type"] = s.particle_type.astype(np.dtype(kind))
+    for k, v in out.items():
+        if not np.array_equal(np.asarray(v, dtype=float), np.asarray(getattr(s, k), dtype=float)):
+            raise RuntimeError(f"harness: representation {rep} changes the values of {k}")
+    return out
+
+
+# Representations of an explicit integer wave-vector list (EXTENSION_2 class 3, EXTENSION_3 class 2).  The unchanged
+# sq.__init__ does `qvector.astype(np.float64) * (2 pi / L)`: every numpy array holding the integer VALUES gives the
+# same wave vectors whatever its dtype or memory layout (probed: int64/32/16/8, float64 -- what np.loadtxt returns --,
+# float32, Fortran order, a strided view, a read-only array).  Nested Python lists / tuples raise AttributeError
+# ('list' object has no attribute 'astype') on the unchanged tree and the signature says npt.NDArray: out of domain.
+QREPS = ["int64", "int64", "int32", "int16", "int8", "float64", "float64", "float64", "float32", "float32",
+         "float64-fortran", "int64-fortran", "float64-strided", "int32-strided", "float64-readonly", "int64-readonly"]
+QREPS_PLAIN = ["int64", "int32", "int16", "float64", "float64", "float32"]  # writeable, contiguous (in-place classes)
+
+
+def q_argument(q, rep):
+    """The array object handed to sq(qvector=...): the integer values of `q` in representation `rep`."""
+    q = np.asarray(q)
+    if rep in (None, "as-is"):
+        return q.copy()
+    dt, _, layout = rep.partition("-")
+    a = q.astype(np.dtype(dt))
+    if layout == "fortran":
+        a = np.asfortranarray(a)
+    elif layout == "strided":
+        wide = np.repeat(a, 2, axis=1)
+        wide[:, 1::2] = 77  # the gaps of the view hold other numbers
+        a = wide[:, ::2]
+    elif layout == "readonly":
+        a = a.copy()
+        a.flags.writeable = False
+    if not np.array_equal(a.astype(np.int64), q.astype(np.int64)):
+        raise RuntimeError(f"harness: representation {rep} does not hold the wave vectors exactly")
+    return a
+
+
+def _qrep_tags(rep, q):
+    rep = rep or ("as-is-" + str(np.asarray(q).dtype))
+    dt = rep.split("-")[0] if not rep.startswith("as-is") else rep.split("-")[-1]
+    return ["qrep-" + rep, "qdtype-floating" if dt.startswith("float") else "qdtype-integer"]
+
+
+BATCHES = ["mixed", "mixed", "mixed", "mixed", "all-unit", "all-one-axis", "all-equal", "all-nonnegative",
+           "large-components"]
+
+
+@st.composite
+def qbatch_st(draw, d, L, batch=None):
+    """An explicit list plus the batch class it belongs to (EXTENSION_3 class 4: a property of the WHOLE list that a
+    short-cut could test -- every component in {-1,0,1}; every vector on one axis; all rows equal; no negative
+    component; large components).  'mixed' is the free generator."""
+    batch = batch or draw(st.sampled_from(BATCHES))
+    if batch in ("mixed", "all-nonnegative"):
+        q = draw(qvector_st(d, L))
+        if batch == "all-nonnegative":
+            q = np.abs(q)
+        return {"q": q, "batch": batch}
+    if batch == "all-unit":
+        units = [v for v in itertools.product((-1, 0, 1), repeat=d) if any(v)]
+        diag = [v for v in units if sum(1 for c in v if c) >= 2]
+        idx = draw(st.lists(st.integers(0, len(units) - 1), min_size=1, max_size=10))
+        rows = [units[i] for i in idx] + [draw(st.sampled_from(diag))]
+    elif batch == "all-one-axis":
+        ax = draw(st.integers(0, d - 1))
+        ks = draw(st.lists(st.sampled_from([-8, -5, -3, -2, -1, 1, 2, 3, 4, 6, 9]), min_size=1, max_size=8))
+        rows = [[k if i == ax else 0 for i in range(d)] for k in ks]
+    elif batch == "all-equal":
+        v = list(draw(st.one_of(st.sampled_from(PYTH[d]), st.tuples(*[st.integers(-6, 6)] * d))))
+        if not any(v):
+            v[draw(st.integers(0, d - 1))] = draw(st.sampled_from([-2, 1, 3]))
+        rows = [v] * draw(st.integers(2, 6))
+    else:  # large-components: |n| up to 100 (still exact in int8), with Pythagorean mates so that groups are shared
+        big = {2: [(60, 80), (80, 60), (100, 0), (0, 100), (-60, 80), (28, 96), (96, -28), (65, 72), (97, 0)],
+               3: [(36, 48, 80), (48, 36, 80), (100, 0, 0), (0, 0, 100), (64, 48, 60), (0, 60, 80), (12, 16, 99),
+                   (99, 12, 16), (0, 101, 0)]}[d]
+        rows = [list(draw(st.sampled_from(big))) for _ in range(draw(st.integers(1, 5)))]
+        rows += [list(r) for r in draw(hnp.arrays(np.int64, (draw(st.integers(1, 5)), d), elements=st.integers(-100, 100)))
+                 if np.any(r)]
+    order = draw(st.permutations(range(len(rows))))
+    return {"q": np.array([rows[i] for i in order], dtype=np.int64).reshape(-1, d), "batch": batch}
 
 
 @st.composite
@@ -220,15 +428,16 @@ def qvector_st(draw, d, L):
             new = np.array(draw(st.sampled_from(PYTH[d])), dtype=np.int64)
         rows.append(new)
     order = draw(st.permutations(range(len(rows))))
-    q = np.array([rows[i] for i in order], dtype=np.int64)
-    return q.astype(draw(st.sampled_from([np.int64, np.int32, np.int64])))
+    return np.array([rows[i] for i in order], dtype=np.int64)
 
 
 @st.composite
 def explicit_case(draw):
     case = draw(system_st())
     case["mode"] = "explicit"
-    case["qvector"] = draw(qvector_st(case["d"], np.diag(case["cell"]["H"])))
+    qb = draw(qbatch_st(case["d"], np.diag(case["cell"]["H"])))
+    case["qvector"], case["batch"] = qb["q"], qb["batch"]
+    case["qrep"] = draw(st.sampled_from(QREPS))
     return case
 
 
@@ -359,6 +568,13 @@ def compare_with_reference(case, nvec, res, tagprefix=""):
         tags.append("csv")
     if case["saveq"]:
         tags.append("qvectors-csv")
+    if case.get("all_outside"):
+        tags.append("all-particles-outside")
+    tt = _timestep_tag(case["timesteps"])
+    if tt:
+        tags.append(tt)
+    if case.get("argrep"):
+        tags.append("argrep-" + case["argrep"])
     nontrivial = bool(2 <= K <= 5 and uneq_counts and nuniqL > 1 and shared)
     return {"nontrivial": nontrivial, "tags": tags, "extra": {"vectors": int(len(nvec)), "groups": int(G)},
             "_exp": exp}
@@ -367,15 +583,18 @@ def compare_with_reference(case, nvec, res, tagprefix=""):
 def check_explicit(case):
     snaps = snapshots_of(case)
     qin = case["qvector"]
-    qv = qin.copy()
+    qv = q_argument(qin, case.get("qrep"))
     res = sq(snaps, qvector=qv, saveqvectors=case["saveq"],
              outputfile="sq_out.csv" if case["outfile"] else None).getresults()
     info = compare_with_reference(case, qin, res)
     info.pop("_exp", None)
     if "excluded-boundary" in info["tags"]:
         return info
-    info["tags"].append("qdtype-" + str(qin.dtype))
+    info["tags"] += _qrep_tags(case.get("qrep"), qin)
     info["tags"].append("nvec<=8" if len(qin) <= 8 else "nvec>8")
+    info["tags"].append("nvec=1" if len(qin) == 1 else "nvec>1")
+    if case.get("batch"):
+        info["tags"].append("batch-" + case["batch"])
     return info
 
 
@@ -408,6 +627,9 @@ def describe(case):
            "pos0": np.round(case["pos"][0][:3], 4).tolist(), "outfile": case["outfile"], "saveq": case["saveq"]}
     if case.get("mode") == "explicit":
         out["qvector"] = np.asarray(case["qvector"]).tolist()[:12]
+        out["qrep"], out["batch"] = case.get("qrep"), case.get("batch")
+    if case.get("argrep"):
+        out["argrep"] = case["argrep"]
     elif case.get("mode") == "range":
         out.update(qrange=case["qrange"], onlypositive=case["onlypositive"], numofq=case["m"])
     return out
@@ -444,7 +666,8 @@ def lattice_case(draw):
     idx = draw(st.lists(st.integers(0, len(allv) - 1), min_size=1, max_size=min(40, len(allv)), unique=True))
     qv = np.array([allv[i] for i in idx], dtype=np.int64)
     return {"d": d, "cell": cell, "pos": pos, "types": types[perm], "K": 2 if twotypes else 1, "reps": reps,
-            "centred": centred, "timesteps": list(range(T)), "qvector": qv, "kind": "lattice"}
+            "centred": centred, "timesteps": list(range(T)), "qvector": qv, "kind": "lattice",
+            "qrep": draw(st.sampled_from(QREPS))}
 
 
 def check_lattice(case):
@@ -452,7 +675,7 @@ def check_lattice(case):
     L = np.diag(case["cell"]["H"])
     snaps = snapshots_of(case)
     nvec = case["qvector"]
-    res = sq(snaps, qvector=nvec.copy()).getresults()
+    res = sq(snaps, qvector=q_argument(nvec, case.get("qrep"))).getresults()
     cols = sqref.column_names(K)
     columns("sq.getresults()", res, cols)
     _, qn = sqref.wave_vectors(nvec, L)
@@ -476,12 +699,13 @@ def check_lattice(case):
     nb = int(bragg.sum())
     tags = [f"d{d}", f"K{K}", "centred" if case["centred"] else "primitive", f"frames{len(case['pos'])}",
             "bragg0" if nb == 0 else "bragg+", "odd-parity-peak" if np.any(parity < 0) else "no-odd-peak"]
+    tags += _qrep_tags(case.get("qrep"), nvec)
     return {"nontrivial": bool(nb > 0 and nb < len(nvec)), "tags": tags}
 
 
 def describe_lattice(case):
     return {"d": case["d"], "L": np.diag(case["cell"]["H"]).tolist(), "reps": case["reps"], "centred": case["centred"],
-            "K": case["K"], "qvector": case["qvector"].tolist()[:10]}
+            "K": case["K"], "qvector": case["qvector"].tolist()[:10], "qrep": case.get("qrep")}
 
 
 # ----------------------------------------------------------------------------- exhaustive default set
@@ -652,7 +876,7 @@ def minimal_case(draw):
             rows.append(v * signs)
     else:
         rows = [v, draw(st.sampled_from([2, 3, -2])) * v]
-    case.update(mode="explicit", qvector=np.array(rows, dtype=draw(st.sampled_from([np.int64, np.int32]))))
+    case.update(mode="explicit", qvector=np.array(rows, dtype=np.int64), qrep=draw(st.sampled_from(QREPS)))
     return case
 
 
@@ -731,7 +955,8 @@ def repeat_case(draw):
             s2["types_frames"] = draw(frame_labels_st(t2, T))
     if variant in ("two-systems-same-shape", "qvector-same-shape", "qvector-inplace"):
         s2["qvector"] = draw(other_qvector_st(s1["qvector"]))
-    return {"variant": variant, "s1": s1, "s2": s2, "twice": bool(variant == "same-object-twice" or draw(st.booleans()))}
+    return {"variant": variant, "s1": s1, "s2": s2, "twice": bool(variant == "same-object-twice" or draw(st.booleans())),
+            "qrep": draw(st.sampled_from(QREPS_PLAIN)), "direct": draw(st.booleans())}
 
 
 def _sq_object(snaps, qv, sub):
@@ -754,34 +979,57 @@ def _results_differ(e1, e2):
     return False
 
 
+METHOD_OF_K = {1: "unary", 2: "binary", 3: "ternary", 4: "quarternary", 5: "quinary"}
+
+
+def _frame_snapshot(df):
+    """Bit-exact copy of a returned DataFrame (column names + values) taken at the moment of return."""
+    return list(df.columns), np.array(df.to_numpy(dtype=float), copy=True)
+
+
+def _frame_unchanged(df, snap):
+    cols, vals = snap
+    now = df.to_numpy(dtype=float)
+    return list(df.columns) == cols and now.shape == vals.shape and np.array_equal(now, vals, equal_nan=True)
+
+
 def check_repeat(case):
     s1, s2, variant = case["s1"], case["s2"], case["variant"]
+    qrep = case.get("qrep")
     for sub in (s1, s2):
         _, qn = sqref.wave_vectors(sub["qvector"], np.diag(sub["cell"]["H"]))
         if sqref.boundary_ambiguous(qn):
             return {"nontrivial": False, "tags": ["excluded-boundary"], "extra": {"excluded_boundary": 1}}
     calls = 0
+    held = []  # (label, returned DataFrame kept alive, bit-exact copy taken at return)
+    direct_calls = 0
 
-    def evaluate(obj, sub, what):
-        nonlocal calls
+    def evaluate(obj, sub, what, direct=False):
+        """One evaluation, compared with the definition for the contents at call time.  direct=True calls the public
+        method for the composition (unary() ... quinary()) instead of getresults(): the statement's anchors name them
+        and getresults() only dispatches on the number of species."""
+        nonlocal calls, direct_calls
         calls += 1
         try:
-            return compare_with_reference(sub, sub["qvector"], obj.getresults())
+            if direct and sub["K"] in METHOD_OF_K:
+                direct_calls += 1
+                res = getattr(obj, METHOD_OF_K[sub["K"]])()
+            else:
+                res = obj.getresults()
+            info_ = compare_with_reference(sub, sub["qvector"], res)
         except Violation as v:
             raise Violation(f"[{variant}: {what}] {v}") from None
+        held.append((what, res, _frame_snapshot(res)))
+        return info_
 
     snaps1 = snapshots_of(s1)
-    q1 = s1["qvector"].copy()
+    q1 = q_argument(s1["qvector"], qrep)
     o1 = _sq_object(snaps1, q1, s1)
-    first = o1.getresults()
-    calls += 1
-    try:
-        info = compare_with_reference(s1, s1["qvector"], first)
-    except Violation as v:
-        raise Violation(f"[{variant}: first call] {v}") from None
+    info = evaluate(o1, s1, "first call")
+    first = held[0][1]
     exp1 = info.pop("_exp")
     if case["twice"]:
-        evaluate(o1, s1, "second getresults() on the same object")
+        evaluate(o1, s1, "second evaluation on the same object", direct=case.get("direct", False))
         # the frame returned by the first call still shows the values of the definition
         try:
             compare_with_reference(s1, s1["qvector"], first)
@@ -790,12 +1038,12 @@ def check_repeat(case):
     # ---- state 2
     inplace = variant in ("positions-inplace", "labels-inplace", "positions+labels-inplace")
     if variant in ("two-systems", "two-systems-same-shape"):
-        snaps2, q2 = snapshots_of(s2), s2["qvector"].copy()
+        snaps2, q2 = snapshots_of(s2), q_argument(s2["qvector"], qrep)
     elif inplace:
         _set_inplace(snaps1, s2)
         snaps2, q2 = snaps1, q1
     elif variant == "qvector-same-shape":
-        snaps2, q2 = snaps1, s2["qvector"].copy()
+        snaps2, q2 = snaps1, q_argument(s2["qvector"], qrep)
     elif variant == "qvector-inplace":
         q1[...] = s2["qvector"]
         snaps2, q2 = snaps1, q1
@@ -813,9 +1061,23 @@ def check_repeat(case):
         oa = _sq_object(snaps1, q1, s1)
         ob = _sq_object(snaps2, q2, s2)
         evaluate(ob, s2, "two live objects, second evaluated first")
-        evaluate(oa, s1, "two live objects, first evaluated last")
+        evaluate(oa, s1, "two live objects, first evaluated last", direct=case.get("direct", False))
+    # ---- results handed out earlier must stay what they were (EXTENSION_3 class 3): every DataFrame returned during
+    # the case is still alive; each must equal, bit for bit, the copy taken when it was returned -- whatever was
+    # computed afterwards for other (also same-shaped) inputs
+    for what, res, snap in held:
+        require(_frame_unchanged(res, snap),
+                lambda what=what: f"[{variant}] the DataFrame returned by '{what}' changed after it was handed out "
+                                  f"({len(held)} results alive)")
     differ = _results_differ(exp1, exp2)
     tags = ["variant:" + variant] + [t for t in info["tags"] if t in ("d2", "d3") or t.startswith(("K", "frames", "labels-"))]
+    tags += _qrep_tags(qrep, s1["qvector"])
+    tags.append(f"results-held={min(len(held), 6)}")
+    shapes = [h[2][1].shape for h in held]
+    if len(shapes) > len(set(shapes)):
+        tags.append("held-results-of-equal-shape")
+    if direct_calls:
+        tags.append("direct-method-call")
     if case["twice"]:
         tags.append("getresults-twice")
     if variant != "same-object-twice":
@@ -909,6 +1171,7 @@ def check_wavevector_calls(case):
     d0 = sysc["d"]
     L = np.diag(sysc["cell"]["H"])
     seen = []  # (d, numofq, onlypositive, mutated, source)
+    heldw = []  # (call index, returned array kept alive, copy taken at return, overwritten by the caller?)
     tags = set()
     nonempty = False
     sqinfo = None
@@ -921,7 +1184,10 @@ def check_wavevector_calls(case):
                 raise Violation(f"[call {k + 1} of {len(case['steps'])}, after "
                                 f"{[(s[0], s[1], s[2]) for s in seen]}] {v}") from None
             nonempty = nonempty or bool(want)
+            snap = np.array(ret, copy=True) if isinstance(ret, np.ndarray) else None
             mutated = _mutate_returned(ret, stp["mutate"])
+            if snap is not None:
+                heldw.append((k, ret, snap, mutated))
             src = "wv"
         else:
             m, op = stp["numofq"], stp["onlypositive"]
@@ -958,6 +1224,19 @@ def check_wavevector_calls(case):
             elif pd_ != key[0] and pm == key[1] and same_op:
                 tags.add("pair:differs-in-ndim-only")
         seen.append(key + (mutated, src))
+    # tables handed out earlier must stay what they were (EXTENSION_3 class 3): every returned array that the caller
+    # did not overwrite -- and that shares no memory with one the caller did overwrite -- still equals its copy
+    dirty = [r for (_, r, _, m) in heldw if m]
+    nheld = 0
+    for k, r, snap, m in heldw:
+        if m or any(np.shares_memory(r, o) for o in dirty):
+            continue
+        nheld += 1
+        require(r.shape == snap.shape and np.array_equal(r, snap),
+                lambda k=k: f"the table returned by call {k + 1} changed after it was handed out "
+                            f"(calls so far: {[(s_[0], s_[1], s_[2]) for s_ in seen]})")
+    if nheld >= 2:
+        tags.add("held-tables>=2")
     related = any(t.startswith("pair:") for t in tags)
     tags.add(f"calls={min(len(seen), 7)}")
     tags.add("with-sq" if any(s[4] == "sq" for s in seen) else "without-sq")
@@ -970,6 +1249,201 @@ def check_wavevector_calls(case):
 
 def describe_wavevector(case):
     return {"steps": [{k: v for k, v in s.items()} for s in case["steps"]], "system": describe(case["system"])}
+
+
+# ----------------------------------------------------------------------------- size boundaries (EXTENSION_3 class 1)
+
+# block sizes a "vectorised" / chunked rewrite typically walks in; around each: B-1, B, B+1, 2B-1, 2B+1, B + B//3
+BLOCKS = {"N": {False: [32, 50, 64, 100, 128, 200, 256], True: [500, 512, 1000, 1024]},
+          "M": {False: [32, 50, 64, 100, 128, 200, 256], True: [500, 512, 1000, 1024]},
+          "T": {False: [32, 50, 64, 100], True: [128, 200, 256, 500]}}
+
+
+def boundary_values(blocks):
+    return sorted({v for B in blocks for v in (B - 1, B, B + 1, 2 * B - 1, 2 * B + 1, B + B // 3)})
+
+
+@st.composite
+def size_case(draw, deep=False):
+    """A SPEC (small, picklable): one size axis -- particles N, supplied wave vectors M, frames T -- sits on a block
+    boundary, the other two stay small so that the case is cheap; 'range' = a qrange whose default set holds hundreds
+    of vectors.  The arrays are built in the check from the drawn seed (a Hypothesis-drawn seed of numpy's
+    generator: the entropy of 1000 x 3 coordinates does not fit Hypothesis' buffer)."""
+    axis = draw(st.sampled_from(["N", "N", "N", "N", "M", "M", "T", "T", "range"]))
+    d = draw(st.sampled_from([2, 3]))
+    K = draw(st.sampled_from([1, 2, 3, 4, 5, 1, 2, 3, 4, 5, 6]))
+    spec = {"axis": axis, "d": d, "K": K, "deep": bool(deep), "seed": draw(st.integers(0, 2 ** 32 - 1)),
+            "cell": draw(box_st(d)), "cfg": draw(st.sampled_from(["gas", "gas", "jittered-lattice", "cluster"])),
+            "where": draw(st.sampled_from(["inside", "inside", "some-outside", "all-outside"])),
+            "composition": draw(st.sampled_from(["random", "random", "equal", "one-rare"])),
+            "qrep": draw(st.sampled_from(QREPS)), "mode": "explicit", "size": None}
+
+    def pick(values):
+        # uniform over the boundary values (st.sampled_from visits a list of 42 values very unevenly): the index comes
+        # from numpy's generator seeded with the Hypothesis-drawn seed
+        return values[int(np.random.default_rng([spec["seed"], 4]).integers(len(values)))]
+
+    spec["outfile"] = draw(st.booleans())
+    spec["saveq"] = bool(spec["outfile"] and draw(st.booleans()))
+    if axis == "N":
+        spec["size"] = spec["N"] = pick(boundary_values(BLOCKS["N"][deep]))
+        spec["T"] = draw(st.sampled_from([1, 1, 2]))
+        spec["M"] = draw(st.integers(1, 6))
+        if draw(st.integers(0, 3)) == 0:  # the default-set path with few vectors
+            op = draw(st.sampled_from(_ops(d)))
+            m = draw(st.integers(2 if op is False else 4, 6))
+            spec.update(mode="range", onlypositive=op, m=m, qrange=_range_for(draw, np.diag(spec["cell"]["H"]), m))
+    elif axis == "M":
+        spec["size"] = spec["M"] = pick(boundary_values(BLOCKS["M"][deep]))
+        spec["N"] = draw(st.integers(max(K, 2), 8))
+        spec["T"] = draw(st.sampled_from([1, 1, 2]))
+    elif axis == "T":
+        spec["size"] = spec["T"] = pick(boundary_values(BLOCKS["T"][deep]))
+        spec["N"] = draw(st.integers(max(K, 1), 6))
+        spec["M"] = draw(st.integers(1, 4))
+    else:
+        op = draw(st.sampled_from([False, False, True] + (["x"] if d == 2 else ["z"])))
+        top = (40, 64) if d == 2 else (14, 20)
+        if deep:
+            top = (64, 160) if d == 2 else (20, 36)
+        m = draw(st.integers(*top))
+        spec["N"] = draw(st.integers(max(K, 2), 8))
+        spec["T"] = 1
+        spec.update(mode="range", onlypositive=op, m=m, qrange=_range_for(draw, np.diag(spec["cell"]["H"]), m),
+                    size=m)
+    spec["labels_move"] = bool(spec["T"] >= 2 and 2 <= K <= 5 and draw(st.booleans()))
+    return spec
+
+
+def build_size_case(spec):
+    """The full case of a size spec (deterministic in the spec)."""
+    rng = np.random.default_rng(spec["seed"])
+    d, K, N, T = spec["d"], spec["K"], spec["N"], spec["T"]
+    cell = spec["cell"]
+    H, lo = cell["H"], cell["lo"]
+
+    def frame():
+        if spec["cfg"] == "jittered-lattice":
+            n = int(np.ceil(N ** (1.0 / d)))
+            grid = np.array(list(itertools.product(range(n), repeat=d)), dtype=float)[rng.permutation(n ** d)[:N]]
+            f = (grid + 0.5 + 0.1 * (rng.random((N, d)) - 0.5)) / n
+        elif spec["cfg"] == "cluster":
+            f = np.mod(0.5 + 0.08 * rng.standard_normal((N, d)), 1.0)
+        else:
+            f = rng.random((N, d))
+        return np.clip(f, 0.0, np.nextafter(1.0, 0.0))
+
+    fr = [frame() for _ in range(T)]
+    offs = np.zeros((N, d))
+    if spec["where"] == "some-outside":
+        offs = rng.integers(-2, 3, (N, d)).astype(float)
+    elif spec["where"] == "all-outside":
+        offs = np.tile(rng.choice([-2.0, -1.0, 1.0, 2.0], d), (N, 1))
+    pos = [lo + (f + offs) @ H for f in fr]
+    # composition: every species present
+    if spec["composition"] == "equal":
+        types = np.arange(N) % K + 1
+    elif spec["composition"] == "one-rare" and K >= 2:  # species 1 has a single particle
+        types = np.concatenate([np.arange(1, K + 1), rng.integers(2, K + 1, max(N - K, 0))])
+    else:
+        types = np.concatenate([np.arange(1, K + 1), rng.integers(1, K + 1, max(N - K, 0))])
+    types = rng.permutation(types[:N].astype(int))
+    types_frames = None
+    if spec["labels_move"]:
+        types_frames = [types] + [rng.permutation(types) for _ in range(T - 1)]
+        if all(np.array_equal(t, types) for t in types_frames[1:]):
+            types_frames = None
+    case = {"d": d, "cell": cell, "pos": pos, "types": types, "types_frames": types_frames, "K": K,
+            "kind": spec["cfg"], "timesteps": [1000 + 50 * k for k in range(T)], "outside": bool(np.any(offs)),
+            "all_outside": spec["where"] == "all-outside", "outfile": spec["outfile"], "saveq": spec["saveq"],
+            "mode": spec["mode"]}
+    if spec["mode"] == "range":
+        case.update(onlypositive=spec["onlypositive"], m=spec["m"], qrange=spec["qrange"])
+    else:
+        M = spec["M"]
+        R = 6 if M <= 64 else (10 if M <= 300 else 24)
+        q = rng.integers(-R, R + 1, (M, d))
+        pyth = np.array(PYTH[d])
+        use = rng.random(M) < 0.25  # Pythagorean mates: groups of several directions and float norms
+        q[use] = pyth[rng.integers(0, len(pyth), int(use.sum()))]
+        zero = ~q.any(axis=1)
+        q[zero, rng.integers(0, d, int(zero.sum()))] = rng.choice([-3, -1, 1, 2], int(zero.sum()))
+        case.update(qvector=q.astype(np.int64), qrep=spec["qrep"], batch=None)
+    return case
+
+
+def _bucket(n):
+    for top in (8, 31, 64, 128, 256, 512, 1024):
+        if n <= top:
+            return f"<={top}"
+    return ">1024"
+
+
+def check_size(spec):
+    case = build_size_case(spec)
+    info = check_explicit(case) if case["mode"] == "explicit" else check_range(case)
+    if any(t.startswith("excluded") for t in info["tags"]):
+        info["nontrivial"] = False
+        return info
+    axis = spec["axis"]
+    info["tags"] = [t for t in info["tags"] if not t.startswith(("frames", "origin-", "cfg-", "numofq"))]
+    info["tags"] += [f"size-axis-{axis}", f"N{_bucket(spec['N'])}", f"frames{_bucket(spec['T'])}"]
+    if axis == "range":
+        info["tags"].append("default-set-M" + _bucket(info["extra"]["vectors"]))
+    else:
+        info["tags"].append(f"size-boundary-{axis}={spec['size']}")
+        B = [b for b in BLOCKS[axis][spec["deep"]] if spec["size"] in (b - 1, b, b + 1, 2 * b - 1, 2 * b + 1, b + b // 3)]
+        s_, b = spec["size"], B[0]
+        info["tags"].append("size-" + ("B-1" if s_ == b - 1 else "B" if s_ == b else "B+1" if s_ == b + 1 else
+                                       "2B-1" if s_ == 2 * b - 1 else "2B+1" if s_ == 2 * b + 1 else "B+B//3"))
+    info["tags"].append("cfg-" + spec["cfg"])
+    info["nontrivial"] = True
+    return info
+
+
+def describe_size(spec):
+    out = {k: v for k, v in spec.items() if k != "cell"}
+    out["L"] = np.diag(spec["cell"]["H"]).tolist()
+    out["lo"] = np.round(spec["cell"]["lo"], 4).tolist()
+    return out
+
+
+# ----------------------------------------------------------------------------- argument representations
+
+
+@st.composite
+def representation_case(draw):
+    """Value-equal arguments in other numpy representations (EXTENSION_2 class 3 / EXTENSION_3 class 2): a hand-built
+    system with an integer box (np.diag([10, 10, 10]) style int64 cell), integer or dyadic coordinates, labels read with
+    another dtype; the explicit wave-vector list in any representation.  The oracle is evaluated for the VALUES."""
+    d = draw(st.sampled_from([2, 3]))
+    K = draw(st.integers(1, 5))
+    N = draw(st.integers(max(K, 2), 12))
+    T = draw(st.sampled_from([1, 1, 2]))
+    L = np.array(draw(st.lists(st.integers(3, 24), min_size=d, max_size=d)), dtype=float)
+    lo = np.array(draw(st.lists(st.integers(-12, 12), min_size=d, max_size=d)), dtype=float)
+    cell = {"d": d, "kind": "ortho", "H": np.diag(L), "lo": lo, "origin": "arbitrary"}
+    rep = draw(st.sampled_from(ARGREPS))
+    pos = []
+    for _ in range(T):
+        if "int-positions" in rep:
+            p = draw(hnp.arrays(np.int64, (N, d), elements=st.integers(-30, 60), fill=st.nothing())).astype(float)
+        else:  # multiples of 1/64: exact in float32 as well
+            p = draw(hnp.arrays(np.int64, (N, d), elements=st.integers(-30 * 64, 60 * 64), fill=st.nothing())) / 64.0
+        pos.append(p)
+    types = draw(gen.types_st(N, K))
+    qb = draw(qbatch_st(d, L))
+    outfile = draw(st.booleans())
+    return {"d": d, "cell": cell, "pos": pos, "types": types, "types_frames": None, "K": K, "kind": "gas",
+            "timesteps": [10 * k for k in range(T)], "outside": True, "outfile": outfile,
+            "saveq": bool(outfile and draw(st.booleans())), "mode": "explicit", "qvector": qb["q"], "batch": qb["batch"],
+            "qrep": draw(st.sampled_from(QREPS)), "argrep": rep}
+
+
+def check_representation(case):
+    info = check_explicit(case)
+    info["nontrivial"] = not any(t.startswith("excluded") for t in info["tags"])
+    return info
 
 
 FACETS = [
@@ -994,6 +1468,21 @@ FACETS = [
                "overwritten in place between constructions; same-shaped qvector arrays with other contents; one "
                "qvector array overwritten in place; every result equals the definition for the contents at call "
                "time; non-trivial = the two inputs have different expected results (or getresults() twice)"),
+    Facet("size_boundaries", size_case(), check_size, quick=2000, thorough=32000, describe=describe_size,
+          shards_quick=4, quick_budget_s=150.0,
+          rule="one size axis on a block boundary B-1, B, B+1, 2B-1, 2B+1, B+B//3: particles N (B in 32, 50, 64, 100, "
+               "128, 200, 256: N = 31..513) with 1..6 wave vectors or a small default range, supplied wave vectors M "
+               "(same values) with N <= 8, frames T (B in 32, 50, 64, 100: T = 31..201) with N <= 6; or a qrange whose "
+               "default set has hundreds of vectors (numofq 40..64 in 2D, 14..20 in 3D); K 1..6, 2D/3D, every "
+               "representation of the list; vectorised reference, same comparison as explicit_vectors; "
+               "non-trivial = compared"),
+    Facet("size_boundaries_deep", size_case(deep=True), check_size, quick=0, thorough=6000, describe=describe_size,
+          rule="thorough tier only: N and M around 500, 512, 1000, 1024 (499..2049), T around 128, 200, 256, 500 "
+               "(127..1001), default sets for numofq up to 160 (2D) / 36 (3D)"),
+    Facet("representations", representation_case(), check_representation, quick=500, thorough=12000, describe=describe,
+          rule="value-equal arguments in other numpy representations: int64 cell and / or int64 coordinates, float32 / "
+               "Fortran-ordered coordinates, labels as float64 / int32 / int8, the wave-vector list as int64/32/16/8, "
+               "float64, float32, Fortran-ordered, strided view, read-only; non-trivial = compared"),
     Facet("wavevector_calls", wavevector_case(), check_wavevector_calls, quick=500, thorough=15000,
           describe=describe_wavevector, shards_quick=2,
           rule="3..9 calls of choosewavevector(ndim, numofq, onlypositive) in one process whose arguments differ in "
@@ -1018,7 +1507,13 @@ MANIFEST = {
              "objects, on one Snapshots object whose position / label arrays were overwritten in place, on same-shaped "
              "or in-place overwritten qvector arrays, each result compared with the definition for the contents at "
              "call time (repeat_calls); sequences of choosewavevector calls with varying arguments, caller-overwritten "
-             "results and sq(qrange) objects in between, each equal to the enumerated set (wavevector_calls)."),
+             "results and sq(qrange) objects in between, each equal to the enumerated set (wavevector_calls). Round 3: "
+             "explicit lists in 12 numpy representations (int64/32/16/8, float64, float32, Fortran order, strided view, "
+             "read-only) and whole-list batch classes; size boundaries — particles N and supplied vectors M = 31..513, "
+             "frames T = 31..201 around block sizes 32..256 (thorough: up to 2049 / 1001), default sets of hundreds of "
+             "vectors (size_boundaries, size_boundaries_deep); value-equal snapshot arrays in other dtypes "
+             "(representations); every DataFrame / table returned during a call sequence is kept alive and must equal "
+             "its copy at the end; direct calls of unary() .. quinary()."),
     "note": ("Trusted base: numpy cos/sin/matmul, pbt/ref/sqref.py. Assumes type ids 1..K all present, identical N/box/"
              "composition in all frames (labels may move between frames), orthogonal cells, integer wave vectors. "
              "'Documented range' = the half-open integer range [-floor(numofq/2), floor(numofq/2)) encoded by the "
